@@ -32,12 +32,15 @@ package c02
 //
 // Observation: one entry per request issued, in order
 //
-//	(new <rpc> <state> <after> (<i> ...))          NewEnvironment  (DEPLOY + CONFIGURE); cmd = tasks the CONFIGURE went to
+//	(new <rpc> <state> <after> (<i> ...) [running-acked | verdict-lost])   NewEnvironment  (DEPLOY + CONFIGURE); cmd = tasks
+//	                                               the CONFIGURE went to; the two atoms only when DEPLOY failed although every
+//	                                               task was scripted to start (see below)
 //	(new <rpc> <state> <after> (<i> ...) [running-acked] (att (<i> ...) ...) [verdict-lost])   …of a scenario with an
 //	                                               `offers` element: one list per deployment attempt (REVIVE call seen by
 //	                                               the master) with the tasks launched in it (ACCEPT calls up to the next
 //	                                               REVIVE); verdict-lost: the request failed and a goroutine dump of the
 //	                                               core shows acquireTasks still waiting for the verdict of its last round
+//	                                               (cannot happen with the code as it is: the model never answers it)
 //	(ctl <EV> <rpc> <state> <after> (<i> ...))     ControlEnvironment
 //	(ctl <EV> <rpc> <state> <after> (<i> ...) (lost <i> ...))   …during which the executor / agent of the live tasks
 //	                                               <i> … was lost (read off the master's task table)
@@ -937,15 +940,21 @@ func runScenario(in string) (string, error) {
 	// with late offers: the tasks that count are those of the last attempt (the ones the core keeps), and only if that
 	// attempt launched every task
 	launchedAll := !sc.hasOffers || (len(atts) > 0 && len(atts[len(atts)-1].idx) == len(sc.tasks))
-	// with late offers, a failed NewEnvironment: is acquireTasks still waiting for the verdict of its last offers round
-	// (finding deploy_verdict_lost)? Proof by goroutine dump; the core does not survive it, and the run ends here anyway.
+	// DEPLOY failed although every task was scripted to start and was launched (the picture of deploy_misses_active)
+	suspect := rpc == "err" && newObs.At(4).Len() == 0 && (len(sc.tasks) > 0 || sc.calls > 0) && allLaunchOk(sc) && launchedAll
+	// A failed NewEnvironment: is acquireTasks still waiting for the verdict of its last offers round (the former finding
+	// deploy_verdict_lost, repaired by `fix: acquireTasks cannot miss the verdict of its offers round`; the model of the code as
+	// it is has no such run, so the atom below is a disagreement)? Proof by goroutine dump; the core does not survive it, and
+	// the run ends here anyway. Asked with late offers whenever an attempt was made, and WITHOUT an `offers` element whenever the
+	// failure would otherwise be put down to deploy_misses_active: a verdict dropped after a complete round launches every
+	// task, attaches none and looks exactly like that finding from outside.
 	stuck := false
-	if sc.hasOffers && rpc == "err" && len(sc.tasks) > 0 && len(atts) > 0 {
+	if rpc == "err" && len(sc.tasks) > 0 && ((sc.hasOffers && len(atts) > 0) || (!sc.hasOffers && suspect)) {
 		if stuck, err = acquireStuck(w, mark); err != nil {
 			return "", err
 		}
 	}
-	if rpc == "err" && newObs.At(4).Len() == 0 && (len(sc.tasks) > 0 || sc.calls > 0) && allLaunchOk(sc) && launchedAll && !stuck {
+	if suspect && !stuck {
 		// DEPLOY failed although every task was scripted to start. Either the harness machine was too slow (inconclusive)
 		// or the core had everything it needed: every TASK_RUNNING update acknowledged long before it gave up.
 		var only map[string]bool
@@ -973,6 +982,8 @@ func runScenario(in string) (string, error) {
 		if stuck {
 			newObs.Add(sx.A("verdict-lost"))
 		}
+	} else if stuck {
+		newObs.Add(sx.A("verdict-lost"))
 	}
 	obs.Add(newObs)
 	if rpc != "ok" || state != "CONFIGURED" || len(sc.steps) == 0 || hasUndeliv(first.outs) {
